@@ -397,7 +397,7 @@ impl HttpSession {
 
     fn upgrade_mux(&mut self, mut mux: MuxClear) -> Option<HttpStateMachine> {
         debug!("{} mux switching to ws", log_context!(self));
-        let Some(stream) = mux.context.streams.pop() else {
+        let Some(mut stream) = mux.context.streams.pop() else {
             error!(
                 "{} upgrade_mux: no stream attached to the mux session, closing",
                 log_context!(self)
@@ -498,6 +498,19 @@ impl HttpSession {
         // SOCKET-layer errors carry the session ULID; unwrap back to the
         // plain `TcpStream` here to feed Pipe's legacy shape.
         let backend_socket = backend_socket.stream;
+        // The kawa buffers keep their own cursors: sync the underlying Checkout
+        // buffers so that bytes read behind the HTTP heads (e.g. frames the
+        // backend sent right after its 101) are relayed by the pipe.
+        stream
+            .front
+            .storage
+            .buffer
+            .sync(stream.front.storage.end, stream.front.storage.head);
+        stream
+            .back
+            .storage
+            .buffer
+            .sync(stream.back.storage.end, stream.back.storage.head);
         let mut pipe = Pipe::new(
             stream.back.storage.buffer,
             Some(backend_id),
